@@ -129,3 +129,61 @@ func judgeStringified(tree *refnbt.Node, pos string, network bool) (class, detai
 	}
 	return "", "", false
 }
+
+// smStrings: strings and keys whose text form exercises the writer's quoting and escaping (both quote characters,
+// backslashes next to quotes, modified-UTF-8 byte sequences), each as root string, compound key, list element and
+// compound value, through every StringifiedMessage position and both formats. The tree alphabets above carry only a
+// handful of strings; the text of a string is a function of its characters.
+var smStrings = []string{
+	"it's a \"test\"", "'a' and \"b\"", "c:\\dir\\\"it's\"", "\"'", "'\"", "\"\"'", "''\"", "\\\"'", "'\\\"", "\\", "\\\\", "\"", "'", "a b", "a\nb", "1b", "true", "", " ",
+	"\xc0\x80", "a\xc0\x80b", "\xed\xa0\xbd\xed\xb8\x80", "\"\xc0\x80'", "é", "日本", "{", "}", "[", "]", ",", ":", ";",
+}
+
+type SMCase struct {
+	Kind string `json:"kind"` // "sm-strings"
+	Str  string `json:"string_hex"`
+	Form string `json:"form"`
+	Conf string `json:"config"`
+}
+
+func famSMStrings() {
+	forms := []struct {
+		name string
+		mk   func(s string) *refnbt.Node
+	}{
+		{"root", func(s string) *refnbt.Node { return &refnbt.Node{Tag: refnbt.String, S: s} }},
+		{"key", func(s string) *refnbt.Node {
+			return &refnbt.Node{Tag: refnbt.Compound, Fields: []refnbt.Field{{Name: s, Val: &refnbt.Node{Tag: refnbt.Byte, I: 1}}}}
+		}},
+		{"list-element", func(s string) *refnbt.Node {
+			return &refnbt.Node{Tag: refnbt.List, ElemTag: refnbt.String, Elems: []*refnbt.Node{{Tag: refnbt.String, S: s}, {Tag: refnbt.String, S: "x"}}}
+		}},
+		{"compound-value", func(s string) *refnbt.Node {
+			return &refnbt.Node{Tag: refnbt.Compound, Fields: []refnbt.Field{{Name: "a", Val: &refnbt.Node{Tag: refnbt.String, S: s}}, {Name: "b", Val: &refnbt.Node{Tag: refnbt.Int, I: 7}}}}
+		}},
+	}
+	var n int64
+	for _, s := range smStrings {
+		for _, f := range forms {
+			tree := f.mk(s)
+			for _, pos := range smPositions {
+				for _, network := range []bool{false, true} {
+					class, detail, unspec := judgeStringified(tree, pos, network)
+					n++
+					if unspec {
+						rep.Unspec(1)
+					}
+					if class != "" {
+						conf := fmt.Sprintf("carrier=stringified position=%s network=%v", pos, network)
+						rep.Fail(engine.Failure{Class: class + "/string-menu", Detail: detail + " [" + conf + "] doc=" + clipS(tree.String(), 200),
+							Case: SMCase{"sm-strings", fmt.Sprintf("%x", s), f.name, conf}}, len(s)*10+len(detail))
+					}
+				}
+			}
+		}
+	}
+	rep.Eval(n)
+	rep.NonTrivial(n)
+	rep.AddStates(n)
+	rep.Count("stringified_string_menu_cases", n)
+}
